@@ -15,6 +15,7 @@ WORKLOADS = {
     "c04": _lazy("crop", "run_c04"),
     "c08": _lazy("crop", "run_c08"),
     "c09": _lazy("crop", "run_c09"),
+    "c11": _lazy("race", "run_c11"),
 }
 
 REAL_VS_STUB = {
@@ -34,7 +35,7 @@ UNDER_CONSTRUCTION = "simulation target (see DESIGN.md section 3); check not bui
 NOT_APPLICABLE = {
     "C01": UNDER_CONSTRUCTION, "C05": UNDER_CONSTRUCTION, "C06": UNDER_CONSTRUCTION,
  "C10": UNDER_CONSTRUCTION,
-    "C11": UNDER_CONSTRUCTION, "C12": UNDER_CONSTRUCTION, "C15": UNDER_CONSTRUCTION,
+    "C12": UNDER_CONSTRUCTION, "C15": UNDER_CONSTRUCTION,
     "C16": UNDER_CONSTRUCTION,
     "C02": "pure function of (cases, combos, fn): enumeration and placeholder shape contain no schedule, "
            "clock, I/O or fault; executor reordering is C01's subject. Not a simulation target.",
@@ -113,6 +114,26 @@ PROPS = {
                     "optionally grows more and reaps partially again, then grows the rest and reaps fully. "
                     "non-trivial = at least 2 batches; distinct = distinct (N, batch sizes, shuffle, kind, api, "
                     "grow/partial-reap sequence).",
+        },
+    },
+    "C11": {
+        "workload": "c11", "level": "exploration",
+        "quick": 20000, "thorough": 600000,
+        "technique": "deterministic simulation: real grow() x1-3, reap(wait=True) and a progress poller as "
+                     "baton-passing threads; a seeded scheduler (uniform / PCT / conflict-directed) picks the next "
+                     "actor at every interposed file operation; simulated clock for the 0.2 s poll",
+        "level_text": "Seeded search over interleavings of the file operations (create, write chunks, close, rename, "
+                      "stat, open, read, scandir) of 1-3 growers (distinct batches or the same batch twice), one "
+                      "waiting reaper and an optional poller on crops of 1-3 batches, with varied userspace buffer "
+                      "sizes and partial writes. The reaper must return the reference and never raise; every poll "
+                      "answer is bracketed by the ground-truth completed set at its start and end; once all growers "
+                      "are done the reaper finishes within one more poll interval. Sampled, not exhaustive.",
+        "level_note": "Trusts: actors == processes; a batch is complete when a grow() of it has returned. Not done: "
+                      "partial-order enumeration (model checking). Duplicate growers run with clean_up=False.",
+        "evidence": {
+            "rule": "each run sows 1-3 batches fault-free, then runs growers/reaper/poller concurrently under one of "
+                    "three scheduling policies; non-trivial = at least 2 context switches; distinct = distinct hash of "
+                    "the (actor, op-kind, file-class) sequence restricted to operations on results/.",
         },
     },
 }
